@@ -170,6 +170,9 @@ def case_random(case):
         shells.append(sh)
         if len(shells) >= int(rng.integers(1, 9)):
             break
+    if rng.random() < 0.3:
+        shells = [gb.relayout_shell(rng, sh) for sh in shells]  # same shells, arrays in other memory layouts
+        xyz = np.asfortranarray(xyz)
     keys = gb.keys_of(shells)
     conv = gb.random_conventions(rng, keys)
     basis = gb.make_basis(shells, conv)
